@@ -278,11 +278,17 @@ def hex_pairs_by_probing(urlutils):
 
 
 def quote_map_rows(qmap):
+    """the 256 rows of a quote map (object evaluated, however it was built): keyed by byte value, by one-character
+    string, or - as in the code as it stands - by both, in which case the two must agree"""
     rows = []
+    missing = object()
     for b in range(256):
-        if qmap[b] != qmap[chr(b)]:
+        vi, vc = qmap.get(b, missing), qmap.get(chr(b), missing)
+        if vi is missing and vc is missing:
+            raise ValueError('quote map has no entry for byte %d' % b)
+        if vi is not missing and vc is not missing and vi != vc:
             raise ValueError('quote map differs between int key %d and char key' % b)
-        rows.append(qmap[b])
+        rows.append(vc if vi is missing else vi)
     extra = [k for k in qmap if not ((isinstance(k, int) and 0 <= k < 256)
                                      or (isinstance(k, str) and len(k) == 1 and ord(k) < 256))]
     if extra:
